@@ -84,7 +84,7 @@ func (c *trCtx) assignedIn2(through bool, nodes ...ast.Node) []types.Object {
 		}
 		if o, ok := c.info().Uses[id].(*types.Var); ok && !(o.Pkg() != nil && o.Parent() == o.Pkg().Scope()) {
 			assigned[o] = true
-			if al := c.aliases[o]; al != nil && al.tree && !bare {
+			if al := c.aliases[o]; al != nil && (al.tree && !bare || al.slice) {
 				assigned[al.recvObj] = true // the write-back into the tree the alias points into
 			}
 		}
@@ -758,6 +758,9 @@ func (c *trCtx) assign(x *ast.AssignStmt, k trK) trLines {
 		trFail(x.Pos(), "assignment with %d targets and %d values is outside the subset", len(x.Lhs), len(x.Rhs))
 	}
 	if len(x.Lhs) == 1 {
+		if out, ok := c.capAssign(x, k); ok {
+			return out // x.f = append(x.f, v) for a field whose capacity is tracked (trans_units_tablerender.go)
+		}
 		k = c.writerAliasAfter(x, k) // p := Ctor(w) that stores the writer w: one sink, two names (trans_units_beancount.go)
 		if c.perfGetAlias(x) {
 			return k() // x := get(&m): another name of m (trans_units_perf.go)
@@ -962,6 +965,7 @@ func (c *trCtx) mutCall(call *ast.CallExpr, tf *trFunc, recv ast.Expr, lhs []ast
 			total = len(tf.mut) + nres
 		}
 	}
+	k = c.sliceAliasRegister(call, tf, recv, lhs, define, k) // x := t.AddRow(): a pointer into t.rows (trans_units_tablerender.go)
 	st := c.fresh("r")
 	if define {
 		for _, l := range lhs {
@@ -989,7 +993,11 @@ func (c *trCtx) mutCall(call *ast.CallExpr, tf *trFunc, recv ast.Expr, lhs []ast
 				proj += ".1"
 			}
 		}
-		return c.store(targets[i], proj, call.Pos(), func() trLines { return body(i + 1) })
+		next := func() trLines { return body(i + 1) }
+		if i < len(tf.mut) {
+			next = c.aliasThrough(targets[i], next) // through an alias into a slice: the write-back (trans_units_tablerender.go)
+		}
+		return c.store(targets[i], proj, call.Pos(), next)
 	}
 	out := trWrapPre(pre, trLet(st, "", trOne(v), body(0)))
 	if aliasing {
